@@ -1,3 +1,6 @@
+import re
+
+
 class JsonUtil:
     """Provides static utility methods pertaining to JSON.
 
@@ -82,8 +85,9 @@ class JsonUtil:
                 type ``int``, ``float``, ``bool``, or ``NoneType``.)
         """
         cls = value.__class__
-        if (cls == str or cls == int or cls == float or cls == bool or
-                value is None):
+        if cls == str:
+            return JsonUtil._sanitize_str(value)
+        elif cls == int or cls == float or cls == bool or value is None:
             return value
 
         if isinstance(value, (list, tuple)):
@@ -96,13 +100,33 @@ class JsonUtil:
         elif isinstance(value, str):
             # Subclasses of str, int, and float (e.g. enums) may override
             # __str__, __int__, and __float__
-            return str.__str__(value)
+            return JsonUtil._sanitize_str(str.__str__(value))
         elif isinstance(value, int):
             return int.__int__(value)
         elif isinstance(value, float):
             return float.__float__(value)
         else:
             raise TypeError('The value is not a JSON value')
+
+    # Matches a high surrogate that is directly followed by a low surrogate
+    _SURROGATE_PAIR_REGEX = re.compile('[\ud800-\udbff][\udc00-\udfff]')
+
+    @staticmethod
+    def _sanitize_str(value):
+        """Return the result of sanitizing the specified ``str`` object.
+
+        This is equivalent to ``json.loads(json.dumps(value))``.
+        ``json.dumps`` escapes each surrogate code point separately, and
+        ``json.loads`` combines a high surrogate escape that is directly
+        followed by a low surrogate escape into a single character.
+        """
+        if JsonUtil._SURROGATE_PAIR_REGEX.search(value) is None:
+            return value
+        return JsonUtil._SURROGATE_PAIR_REGEX.sub(
+            lambda match: chr(
+                0x10000 + ((ord(match.group()[0]) - 0xd800) << 10) +
+                (ord(match.group()[1]) - 0xdc00)),
+            value)
 
     @staticmethod
     def _key_to_str(key):
@@ -114,9 +138,9 @@ class JsonUtil:
         ``list(json.loads(json.dumps({key: None})).keys())[0]``.
         """
         if key.__class__ == str:
-            return key
+            return JsonUtil._sanitize_str(key)
         elif isinstance(key, str):
-            return str.__str__(key)
+            return JsonUtil._sanitize_str(str.__str__(key))
         elif isinstance(key, bool):
             if bool(key):
                 return 'true'
